@@ -434,6 +434,26 @@ def gen(args) -> list:
                     ev["am"], ev["pm"] = cps(fi.am_designator), cps(fi.pm_designator)
                 except Exception:  # noqa: BLE001
                     pass
+            if ev.get("exact_tokens") and any(t in ("MMM", "MMMM", "ddd", "dddd", "c") for t in tokens) and typ in ("LocalDate", "LocalDateTime", "AnnualDate"):
+                # the culture's name tables (index 0 unused for months; days Monday = 1 .. Sunday = 7) for the reference formatter;
+                # only for the 12-month calendars the tables are about
+                try:
+                    dv0 = v.date if typ == "LocalDateTime" else v
+                    if typ == "AnnualDate" or dv0.calendar.id in ("ISO", "Gregorian"):
+                        fi = _fi(culture)
+
+                        def tab(xs, n):
+                            xs = list(xs)
+                            return [cps(xs[i]) if i < len(xs) else [] for i in range(1, n + 1)]
+
+                        ev["names"] = {"long": tab(fi.long_month_names, 12), "short": tab(fi.short_month_names, 12),
+                                       "longGen": tab(fi.long_month_genitive_names, 12), "shortGen": tab(fi.short_month_genitive_names, 12),
+                                       "longDay": tab(fi.long_day_names, 7), "shortDay": tab(fi.short_day_names, 7),
+                                       "cal": cps(dv0.calendar.id) if typ != "AnnualDate" else cps("ISO")}
+                        if typ != "AnnualDate":
+                            ev["dow"] = dv0.day_of_week.value
+                except Exception:  # noqa: BLE001
+                    pass
             if "yymax" in ev["value"]:
                 ev["value"]["yymax"] = yymax
             if text_ok and any(t in ("MMM", "MMMM", "ddd", "dddd") for t in tokens):
@@ -488,6 +508,7 @@ _FRACS = {pre + c * k for pre in ("", ".", ";") for c in "fF" for k in range(1, 
 _LITS = {" ", "-", ",", ".", "'at'", "\\h", "'T'", "'of'", "'.'", "\\.", "'d'", "'x'", "\\:", "\\d"}
 _REF_VOCAB = {
     "fields": {"HH", "H", "hh", "h", "mm", "m", "ss", "s", "tt", "t", ":", "/", "yyyy", "yy", "uuuu", "uuu", "uu", "u", "MM", "M", "dd", "d"} | _FRACS | _LITS,
+    "names": {"MMMM", "MMM", "dddd", "ddd", "c"},
     "Offset": {"+", "-", "HH", "H", "mm", "m", "ss", "s", ":", "'x'", "\\:", " "},
     "Duration": {"+", "-", "DD", "D", "hh", "h", "mm", "m", "ss", "s", ":", ".", " ", "'d'", "'.'", "\\."} | _FRACS,
 }
@@ -497,7 +518,7 @@ def reference_text_applies(ev) -> bool:
     """Mirror of Trace_Text!Predictable, for the evidence counts only (the spec decides)."""
     if not ev.get("exact_tokens") or "text" not in ev or "am" not in ev:
         return False
-    return set(ev["tokens"]) <= _REF_VOCAB.get(ev["type"], _REF_VOCAB["fields"])
+    return set(ev["tokens"]) <= _REF_VOCAB.get(ev["type"], _REF_VOCAB["fields"] | (_REF_VOCAB["names"] if "names" in ev else set()))
 
 
 def run(ctx: Ctx):
